@@ -98,6 +98,14 @@ pub struct Obs {
     pub init_error: Option<String>,
     /// Names of the lanes the runtime registered a reporter for.
     pub registered_reporters: Vec<String>,
+    /// (ticket, virtual instant) at the start of every script step: a ticket maps to the virtual time of
+    /// the last step that started before it (a lower bound of the instant it was issued at).
+    pub step_times: Vec<(u64, tokio::time::Instant)>,
+    /// Virtual instant at which run_agent returned.
+    pub finished_v: Option<tokio::time::Instant>,
+    /// (ticket before, ticket after) of the final idle period, if the script had one and the agent was
+    /// still running when it began.
+    pub final_idle: Option<(u64, u64)>,
 }
 
 fn nz(n: usize) -> NonZeroUsize {
@@ -377,7 +385,7 @@ impl Runner {
                 self.epoch += 1;
             }
             Step::Lane(l, c) => self.lane(*l, c.clone()),
-            Step::AgentReturn(_) | Step::StopAgent => {}
+            Step::AgentReturn(_) | Step::StopAgent | Step::FinalIdle(_) => {}
         }
     }
 }
@@ -434,10 +442,13 @@ pub fn run_case(cfg: &Config, script: &[Step], rng: &mut Rng) -> Obs {
         // Ticket at which run_agent returned (by itself or after a stop).
         let done_at: Arc<Mutex<Option<u64>>> = Arc::new(Mutex::new(None));
         let done2 = done_at.clone();
+        let done_v: Arc<Mutex<Option<tokio::time::Instant>>> = Arc::new(Mutex::new(None));
+        let done_v2 = done_v.clone();
         let run = task.run_agent();
         let agent_handle: JoinHandle<Result<(), AgentExecError>> = tokio::spawn(Jitter::new(
             async move {
                 let r = run.await;
+                *done_v2.lock() = Some(tokio::time::Instant::now());
                 *done2.lock() = Some(ticket());
                 r
             },
@@ -468,8 +479,26 @@ pub fn run_case(cfg: &Config, script: &[Step], rng: &mut Rng) -> Obs {
         let mut return_requested = None;
         let mut return_tx = Some(return_tx);
         let mut abrupt = false;
+        let mut step_times = vec![];
+        let mut final_idle = None;
         for step in script {
+            step_times.push((ticket(), tokio::time::Instant::now()));
             match step {
+                Step::FinalIdle(ms) => {
+                    // every party can make progress: readers drain at full speed, nothing is stalled
+                    runner.unstall_everything();
+                    for r in 0..runner.live.len() {
+                        if let Some(live) = runner.live[r].as_ref() {
+                            live.ctl.lock().pace = FAST;
+                        }
+                    }
+                    settle().await;
+                    let before = ticket();
+                    tokio::time::sleep(Duration::from_millis(*ms)).await;
+                    final_idle = Some((before, ticket()));
+                    abrupt = true;
+                    break;
+                }
                 Step::StopAgent => {
                     abrupt = true;
                     break;
@@ -568,6 +597,7 @@ pub fn run_case(cfg: &Config, script: &[Step], rng: &mut Rng) -> Obs {
         let agent_returned = *shared.returned.lock();
         let init_error = shared.init_error.lock().clone();
         let registered_reporters = runner.reporters.lock().iter().map(|(n, _)| n.clone()).collect();
+        let finished_v = *done_v.lock();
         Obs {
             cfg: cfg2,
             sessions: runner.sessions,
@@ -585,6 +615,9 @@ pub fn run_case(cfg: &Config, script: &[Step], rng: &mut Rng) -> Obs {
             lane_ctl: runner.lane_ctl,
             init_error,
             registered_reporters,
+            step_times,
+            finished_v,
+            final_idle,
         }
     })
 }
